@@ -105,8 +105,8 @@ PROPS = {
     'C01': {
         'families': [FOREST, FORESTEXH, PHEAP],
         'kinds': ['roots', 'modifyfail', 'undofail', 'block', 'pdump', 'ph:*'],
-        'lean_modules': ['UtreexoVerif.Props.C01', 'UtreexoVerif.Props.C01b', 'UtreexoVerif.Props.C01c', 'UtreexoVerif.Props.C01d', PHEAP_MODULE, 'UtreexoVerif.Props.C09c'],
-        'theorems': ['UtreexoVerif.Props.C01.' + t for t in ['run_slots', 'batching_independent', 'roots_run', 'numLeaves_run',
+        'lean_modules': ['UtreexoVerif.Props.C01', 'UtreexoVerif.Props.C01b', 'UtreexoVerif.Props.C01c', 'UtreexoVerif.Props.C01d', PHEAP_MODULE, 'UtreexoVerif.Props.C09c', 'UtreexoVerif.Props.NZ'],
+        'theorems': ['UtreexoVerif.Props.NZ.nzB8', 'UtreexoVerif.Props.NZ.not_CR', 'UtreexoVerif.Props.NZ.nz_hashBytesOK_compatible'] + ['UtreexoVerif.Props.C01.' + t for t in ['run_slots', 'batching_independent', 'roots_run', 'numLeaves_run',
                      'roots_length_popcount', 'roots_length_onesCount64', 'mem_treeRows_iff', 'subtree_without_survivors',
                      'sibling_without_survivors_right', 'sibling_without_survivors_left', 'both_halves_survive', 'collapse_leaves',
                      'root_zero_iff_no_survivors', 'roots_def', 'stump_add_refines', 'stump_add_refines_CR', 'roots_add_one',
@@ -122,8 +122,8 @@ PROPS = {
     'C02': {
         'families': [FOREST, FORESTEXH, PHEAP],
         'kinds': ['prove', 'hverify', 'ph:*'],
-        'lean_modules': ['UtreexoVerif.Props.C02', 'UtreexoVerif.Props.C16c', PHEAP_MODULE, 'UtreexoVerif.Props.C09c'],
-        'theorems': ['UtreexoVerif.Props.C02.' + t for t in ['honest_proof_verifies', 'honest_proof_verifies_CR', 'mem_touchedIdx',
+        'lean_modules': ['UtreexoVerif.Props.C02', 'UtreexoVerif.Props.C16c', PHEAP_MODULE, 'UtreexoVerif.Props.C09c', 'UtreexoVerif.Props.NZ'],
+        'theorems': ['UtreexoVerif.Props.NZ.nzB8', 'UtreexoVerif.Props.NZ.not_CR', 'UtreexoVerif.Props.NZ.nz_hashBytesOK_compatible'] + ['UtreexoVerif.Props.C02.' + t for t in ['honest_proof_verifies', 'honest_proof_verifies_CR', 'mem_touchedIdx',
                      'touchedIdx_sorted', 'every_live_set_provable', 'canon_defined', 'canon_live', 'canon_perm']] +
                     ['UtreexoVerif.Props.C16.proofPositions_spec', 'UtreexoVerif.Props.C16.proofPositions_spec_all', 'UtreexoVerif.Props.C16.proofPositions_refines',
                      'UtreexoVerif.Proofs.CalcPlan.plan_run', 'UtreexoVerif.Proofs.SpecPlan.calc_generic', 'UtreexoVerif.Props.PollardHeapB.prove_refines', 'UtreexoVerif.Props.PollardHeapB.verify_refines', 'UtreexoVerif.Props.C09.prove_canon', 'UtreexoVerif.Props.C09c.prove_full', 'UtreexoVerif.Props.C09c.finv_verify', 'UtreexoVerif.Props.C09b.inv_verify'],
@@ -135,8 +135,8 @@ PROPS = {
     'C10': {
         'families': [FOREST, FORESTEXH, PHEAP],
         'kinds': ['pos', 'hash', 'count', 'cachedcount', 'pdump', 'pollardhash', 'ph:*'],
-        'lean_modules': ['UtreexoVerif.Props.C10', PHEAP_MODULE, 'UtreexoVerif.Props.C09c'],
-        'theorems': ['UtreexoVerif.Props.C10.' + t for t in ['posOf_eq_some_iff', 'posOf_eq_none_iff', 'posOf_nodeAt', 'posOf_live_unique',
+        'lean_modules': ['UtreexoVerif.Props.C10', PHEAP_MODULE, 'UtreexoVerif.Props.C09c', 'UtreexoVerif.Props.NZ'],
+        'theorems': ['UtreexoVerif.Props.NZ.nzB8', 'UtreexoVerif.Props.NZ.not_CR', 'UtreexoVerif.Props.NZ.nz_hashBytesOK_compatible', 'UtreexoVerif.Props.C10.getLeafPosition_calculatePosition_nd', 'UtreexoVerif.Proofs.PollardCalcPos.roots_distinct_nd', 'UtreexoVerif.Spec.nodes_leaf_hash_unique', 'UtreexoVerif.Spec.nodesDistinct_of_CR'] + ['UtreexoVerif.Props.C10.' + t for t in ['posOf_eq_some_iff', 'posOf_eq_none_iff', 'posOf_nodeAt', 'posOf_live_unique',
                      'posOf_internal_node', 'liveLeaves_run', 'posOf_deleted', 'posOf_never_added', 'posOf_live', 'posOf_run_isSome_iff',
                      'getLeafPosition_found_iff', 'getLeafPosition_eq', 'getLeafPosition_not_found', 'getLeafPosition_run',
                      'pollardGetHash_spec', 'pollardGetHashNiece_spec', 'getNodeHash_spec', 'getNode_niece_eq_child',
@@ -152,8 +152,8 @@ PROPS = {
     'C11': {
         'families': [FOREST, FORESTEXH],
         'kinds': ['stumpupdate'],
-        'lean_modules': ['UtreexoVerif.Props.C11', 'UtreexoVerif.Props.C11del', 'UtreexoVerif.Props.C01b', 'UtreexoVerif.Props.C11b'],
-        'theorems': ['UtreexoVerif.Props.C11.' + t for t in ['stump_add_updateData', 'newAddSpec_mem_nodes', 'newAddSpec_added_leaf', 'posFacts']] +
+        'lean_modules': ['UtreexoVerif.Props.C11', 'UtreexoVerif.Props.C11del', 'UtreexoVerif.Props.C01b', 'UtreexoVerif.Props.C11b', 'UtreexoVerif.Props.NZ'],
+        'theorems': ['UtreexoVerif.Props.NZ.nzB8', 'UtreexoVerif.Props.NZ.not_CR', 'UtreexoVerif.Props.NZ.nz_hashBytesOK_compatible', 'UtreexoVerif.Props.C11.stump_add_updateData_nd', 'UtreexoVerif.Props.C11.stump_add_dataSpec_nd', 'UtreexoVerif.Props.C11.stump_update_data_nd', 'UtreexoVerif.Props.C11.stump_update_data_history_nd'] + ['UtreexoVerif.Props.C11.' + t for t in ['stump_add_updateData', 'newAddSpec_mem_nodes', 'newAddSpec_added_leaf', 'posFacts']] +
                     ['UtreexoVerif.Props.C01.stump_update_no_dels_refines', 'UtreexoVerif.Proofs.FinalPos.fpos_eq_liftFold'] +
                     ['UtreexoVerif.Props.C11del.' + t for t in ['stump_newDel', 'del_calc_roots', 'pathNodes_are_nodes', 'newDelSpec_sorted',
                      'hashAfter_eq_zero_iff', 'hashAfter_unchanged', 'hashAfter_node']] + ['UtreexoVerif.Props.C01b.stump_update_full',
@@ -193,8 +193,8 @@ PROPS = {
                      {'name': 'cachedexh', 'shards': {'quick': 8, 'thorough': 16}}],
         'kinds': ['cupdate', 'pupdate*'],
         'dist_kinds': ['dist:pupdate'],
-        'lean_modules': ['UtreexoVerif.Props.C07b', 'UtreexoVerif.Props.C07'],
-        'theorems': ['UtreexoVerif.Props.C07b.' + t for t in ['proofUpdate_no_err_no_hang', 'updateProofRemove_total', 'updateProofAdd_total', 'proofUpdate_total']] +
+        'lean_modules': ['UtreexoVerif.Props.C07b', 'UtreexoVerif.Props.C07', 'UtreexoVerif.Props.NZ'],
+        'theorems': ['UtreexoVerif.Props.NZ.nzB8', 'UtreexoVerif.Props.NZ.not_CR', 'UtreexoVerif.Props.NZ.nz_hashBytesOK_compatible', 'UtreexoVerif.Props.C07.proofUpdate_with_stump_nd', 'UtreexoVerif.Props.C07.client_from_nd', 'UtreexoVerif.Props.C07.client_history_nd', 'UtreexoVerif.Props.C07.client_history_every_step_nd', 'UtreexoVerif.Props.NZ.histR_distinct'] + ['UtreexoVerif.Props.C07b.' + t for t in ['proofUpdate_no_err_no_hang', 'updateProofRemove_total', 'updateProofAdd_total', 'proofUpdate_total']] +
                     ['UtreexoVerif.Props.C07.' + t for t in ['deletion_movement_posOf', 'deletion_movement_nodeAt', 'deletion_movement_surj',
                      'deTwin_maximal_deleted', 'getNewPositions_movement', 'updateProofRemove_canonical', 'updateProofAdd_canonical',
                      'proofUpdate_canonical', 'proofUpdate_with_stump', 'client_history', 'C07_history', 'client_history_every_step',
@@ -209,8 +209,8 @@ PROPS = {
                      {'name': 'cachedexh', 'shards': {'quick': 8, 'thorough': 16}}],
         'kinds': ['cundo', 'pundo*'],
         'dist_kinds': ['dist:pundo'],
-        'lean_modules': ['UtreexoVerif.Props.C08', 'UtreexoVerif.Props.C08b'],
-        'theorems': ['UtreexoVerif.Props.C08.' + t for t in ['C08_fails_emptyRootsOverwritten', 'C08_fails_toEmpty', 'proofUndoAdd_canonical',
+        'lean_modules': ['UtreexoVerif.Props.C08', 'UtreexoVerif.Props.C08b', 'UtreexoVerif.Props.NZ'],
+        'theorems': ['UtreexoVerif.Props.NZ.nzB8', 'UtreexoVerif.Props.NZ.not_CR', 'UtreexoVerif.Props.NZ.nz_hashBytesOK_compatible', 'UtreexoVerif.Props.C08b.C08_nd', 'UtreexoVerif.Props.C08b.update_then_undo_nd', 'UtreexoVerif.Props.C08b.client_history_undo_last_nd', 'UtreexoVerif.Props.C08.client_from_nodup_nd'] + ['UtreexoVerif.Props.C08.' + t for t in ['C08_fails_emptyRootsOverwritten', 'C08_fails_toEmpty', 'proofUndoAdd_canonical',
                      'proofUndoDel_canonical', 'proofUndo_canonical_partial', 'C08_partial', 'undone_no_added_leaf', 'undone_no_invented_leaf',
                      'undone_keeps_live_leaves', 'undone_exactly', 'undone_proof_verifies', 'update_then_undo_partial',
                      'client_history_undo_last_partial']] +
@@ -298,8 +298,8 @@ PROPS = {
         'families': [{'name': 'partial', 'shards': {'quick': 16, 'thorough': 16}, 'seeds': {'quick': 1, 'thorough': 3}},
                      {'name': 'partialexh', 'shards': {'quick': 16, 'thorough': 16}}],
         'kinds': ['p:*', 'pm:*'],
-        'lean_modules': ['UtreexoVerif.Props.C09', 'UtreexoVerif.Props.C09b', 'UtreexoVerif.Props.C09c'],
-        'theorems': ['UtreexoVerif.Props.C09b.' + t for t in ['inv_addSingle', 'inv_add', 'roots_add', 'inv_ingest', 'inv_verify', 'inv_remove', 'inv_prune', 'inv_modify', 'modify_encoding_independent', 'inv_undo', 'C09_reach_all_but_undo', 'C09_reach', 'lookups_reach', 'lookups_reachU', 'Finding.C09_fails_leaf_is_node']] + ['UtreexoVerif.Props.C09c.' + t for t in ['finv_new', 'roots_full', 'hasCached_full', 'prove_full', 'getHash_full', 'getLeafPosition_full', 'verify_sound_full', 'finv_add', 'finv_remove', 'finv_modify', 'finv_modify_any_order', 'finv_ingest', 'finv_verify', 'finv_prune', 'finv_undo', 'reachFull_finv', 'C01_full', 'C09_reach_full', 'lookups_reach_full']] + ['UtreexoVerif.Proofs.MapUndoAll.sinv_undo', 'UtreexoVerif.Proofs.MapUndoAll.undoAdd_spec', 'UtreexoVerif.Proofs.MapUndoAll.undoDeletion_spec', 'UtreexoVerif.Proofs.MapDeTwin.deTwin_spec_live', 'UtreexoVerif.Proofs.MapRemoveAll.sinv_remove', 'UtreexoVerif.Proofs.MapIngest.sinv_ingest', 'UtreexoVerif.Proofs.MapAddMerge.sinv_add'] + ['UtreexoVerif.Props.C09.' + t for t in C09_THEOREMS] + C09_HELPERS,
+        'lean_modules': ['UtreexoVerif.Props.C09', 'UtreexoVerif.Props.C09b', 'UtreexoVerif.Props.C09c', 'UtreexoVerif.Props.NZ'],
+        'theorems': ['UtreexoVerif.Props.NZ.nzB8', 'UtreexoVerif.Props.NZ.not_CR', 'UtreexoVerif.Props.NZ.nz_hashBytesOK_compatible'] + ['UtreexoVerif.Props.C09b.' + t for t in ['inv_addSingle', 'inv_add', 'roots_add', 'inv_ingest', 'inv_verify', 'inv_remove', 'inv_prune', 'inv_modify', 'modify_encoding_independent', 'inv_undo', 'C09_reach_all_but_undo', 'C09_reach', 'lookups_reach', 'lookups_reachU', 'Finding.C09_fails_leaf_is_node']] + ['UtreexoVerif.Props.C09c.' + t for t in ['finv_new', 'roots_full', 'hasCached_full', 'prove_full', 'getHash_full', 'getLeafPosition_full', 'verify_sound_full', 'finv_add', 'finv_remove', 'finv_modify', 'finv_modify_any_order', 'finv_ingest', 'finv_verify', 'finv_prune', 'finv_undo', 'reachFull_finv', 'C01_full', 'C09_reach_full', 'lookups_reach_full']] + ['UtreexoVerif.Proofs.MapUndoAll.sinv_undo', 'UtreexoVerif.Proofs.MapUndoAll.undoAdd_spec', 'UtreexoVerif.Proofs.MapUndoAll.undoDeletion_spec', 'UtreexoVerif.Proofs.MapDeTwin.deTwin_spec_live', 'UtreexoVerif.Proofs.MapRemoveAll.sinv_remove', 'UtreexoVerif.Proofs.MapIngest.sinv_ingest', 'UtreexoVerif.Proofs.MapAddMerge.sinv_add'] + ['UtreexoVerif.Props.C09.' + t for t in C09_THEOREMS] + C09_HELPERS,
         'unproved': C09_UNPROVED,
         'rule': 'partial (non-full) MapPollards started with NewMapPollard(false) under TotalRows 0/1/2/3/4/5/50/63 or from bare roots (NewMapPollardFromRoots) in the middle of a history, plus full instances, driven through random and bounded-exhaustive interleavings of Modify (random Remember flags), Verify(remember) also with surplus proof hashes, Ingest, VerifyPartialProof, Prune and Undo next to a full Pollard as reference prover; after EVERY operation NumLeaves, TotalRows, CachedLeaves and Nodes are dumped through ForEach and (a) judged by an oracle written from the property text against the specification forest and the expected cached set (true hashes, CachedLeaves exact, required <= stored <= allowed, Prove of cached subsets = canonical proof, Prune keeps what is needed and adds nothing) and (b) compared ENTRY BY ENTRY (incl. remember flags) with the Lean transliteration of mappollard.go replaying the same operation; non-trivial dump = at least one cached leaf',
         'trusted': COMMON_TRUST,
